@@ -1258,7 +1258,14 @@ func (sc *serverConn) handleHeaderFrame(strm *Stream, fr *FrameHeader) error {
 	for len(b) > 0 {
 		pb := b
 
-		b, err = sc.dec.nextField(hf, blockStart, fieldsProcessed, b)
+		var decoded bool
+
+		b, decoded, err = sc.dec.nextField(hf, blockStart, fieldsProcessed, b)
+		if err == nil && !decoded {
+			// the fragment ended in a table size update: no field
+			break
+		}
+
 		if err != nil {
 			// ErrUnexpectedSize means a header field spills past the bytes we
 			// currently have. That is only legal when more frames are coming:
